@@ -306,15 +306,40 @@ class C14(Monitor):
         self.tr = w.spec.get("transit", 1)
         self.delay = w.spec.get("delay", 2)
         self.seen = set()
+        self.last_wake = 0.0    # start of the current waiting period: t = 0, every expiry (empty or not), every "full" instant
+        self.fulls = []
+        self.ticks = []
+
+    def on_crash(self, w, op, crash):
+        # well-formed calls only: an exception out of the fleet's own activation / trip process means that the items
+        # on board are never delivered (the kernel run is dead) -- "delivered all at once, one round trip later" fails
+        if crash.where == "env.step":
+            waiting = [x.obj for x in w.inside() if x.t_avail_obs is None]
+            from .engine_f import crash_site
+            return [V("C14", "trip-completes", w, "the fleet's own activation / trip process raised %s after well-formed calls only (a trip for "
+                      "items that are not waiting, or a trip that cannot finish); %d loaded item(s) not yet delivered, no later batch can be"
+                      % (crash, len(waiting)), exc=type(crash.exc).__name__, site=crash_site(crash.exc)[0])]
+        return []
+
+    def _tick(self, now):
+        while self.delay > 0 and self.last_wake + self.delay <= now + EPS:
+            self.last_wake += self.delay
+            self.ticks.append(self.last_wake)
+        del self.ticks[:-8]
+        del self.fulls[:-8]
 
     def after(self, w, obs):
         out = []
         op = obs["op"]
         tr2 = 2 * self.tr
+        self._tick(w.now)
         if op[0] == "put":
             rec = obs["item"]
             rec.x["deadline"] = w.now + self.delay + tr2
             if w.held() >= w.spec.cap:
+                self._tick(w.now)
+                self.fulls.append(w.now)
+                self.last_wake = w.now
                 for x in w.inside():
                     if x.t_avail_obs is None:
                         x.x["deadline"] = min(x.x.get("deadline", float("inf")), w.now + tr2)
@@ -328,6 +353,18 @@ class C14(Monitor):
                     out.append(V("C14", "a-full-round-trip", w,
                                  "%r loaded at %s is available at %s, less than a round trip (%s) later"
                                  % (x.obj, x.t_put, x.t_avail_obs, tr2), loaded_during_trip=True))
+            # departure rule: the trip that delivers now left at D = now - round trip; D must be an instant at which the fleet
+            # became full, or the end of a waiting period (periods restart at every departure and every empty expiry; a period
+            # counted from the load of an item of the batch is accepted too)
+            for A in sorted({x.t_avail_obs for x in new}):
+                D = A - tr2
+                batch = [x for x in new if x.t_avail_obs == A]
+                ok = any(abs(D - f) < EPS for f in self.fulls) or any(abs(D - t) < EPS for t in self.ticks) \
+                    or any(abs(D - (x.t_put + self.delay)) < EPS for x in batch)
+                if not ok:
+                    out.append(V("C14", "e-departs-only-when-full-or-delay-expired", w,
+                                 "batch %s became available at %s, so its trip left at %s: the fleet did not become full then (capacity %d) and no waiting period of %s ended then (recent period ends %s)"
+                                 % ([x.obj for x in batch], A, D, w.spec.cap, self.delay, self.ticks[-3:]), early=True))
             pr = w.pub_ready()
             if pr is not None:
                 pos = {id(o): i for i, o in enumerate(pr)}
@@ -368,7 +405,8 @@ class C14(Monitor):
 
     def state(self, w):
         g = w.grid
-        return tuple((x.obj, round(max(x.x.get("deadline", 0) - w.now, -g), 9), bool(x.x.get("full")),
+        ph = round(w.now - self.last_wake, 6)
+        return (ph,) + tuple((x.obj, round(max(x.x.get("deadline", 0) - w.now, -g), 9), bool(x.x.get("full")),
                       round(max(x.t_put - w.now, -w.spec.get("age_cap", 4)), 9), x.t_avail_obs is not None,
                       x.t_avail_obs is not None and abs(x.t_avail_obs - w.now) < EPS)
                      for x in w.inside())
